@@ -108,22 +108,18 @@ NoPremature(F, emits, cap) ==
 
 (* Pooling methods and plain fragments.  Plain fragments are matched by "same start or same end"; pooling  *)
 (* method 0 compares a candidate with every member, method 1 with the molecule's envelope (min start, max   *)
-(* end).  The two can only differ for a fragment that is linked to another one but touches neither the     *)
-(* smallest start nor the largest end of its linkage component ("interior match", finding D61).  Outside    *)
-(* that constellation both methods must give the same molecules (verified by TLC on the design model).     *)
+(* end).  Envelope match implies member match, so the two can only differ when method 0 lets a fragment     *)
+(* join a molecule whose envelope at that moment it does not touch ("interior join", finding D61).  G0 =    *)
+(* the groups method 0 produced (indices = arrival order).  Without an interior join both methods must      *)
+(* give the same molecules (verified by TLC on the design model).                                          *)
 PlainKey(f, g)  == f.cell = g.cell /\ f.contig = g.contig /\ f.strand = g.strand /\ f.umi = g.umi
 PlainLink(f, g) == PlainKey(f, g) /\ (f.start = g.start \/ f["end"] = g["end"])
-Component(S, R(_, _), x0) ==
-    LET G[k \in 0 .. Cardinality(S)] ==
-            IF k = 0 THEN {x0}
-            ELSE LET prev == G[k - 1] IN prev \cup { y \in S \ prev : \E x \in prev : R(x, y) \/ R(y, x) }
-    IN G[Cardinality(S)]
-InteriorMatch(F, V) ==
-    \E h \in V :
-        /\ \E f \in V \ {h} : PlainLink(F[f], F[h])
-        /\ LET R(i, j) == PlainLink(F[i], F[j])
-               C == Component(V, R, h)
-           IN (\E g \in C : F[g].start < F[h].start) /\ (\E g \in C : F[g]["end"] > F[h]["end"])
+InteriorJoin(F, G0) ==
+    \E g \in G0 : \E h \in g :
+        LET prior == { i \in g : i < h } IN
+        /\ prior # {}
+        /\ F[h].start # MinOf({ F[i].start : i \in prior })
+        /\ F[h]["end"] # MaxOf({ F[i]["end"] : i \in prior })
 
 (* the precondition of C07 inside which the design (correct ejection) keeps the promise - see     *)
 (* MolAssign.tla: MC_MolAssign_c07_* verify it, MC_MolAssign_beyond_* show it is tight.          *)
